@@ -48,10 +48,13 @@ Init == /\ i1 \in DOMAIN Items /\ i2 \in (IF Pairs THEN DOMAIN Items ELSE {1})
         /\ cx \in {"root", "elem", "key", "val"}
 Next == UNCHANGED <<i1, i2, a, b, c, cx>>
 
-Case == LET x == Text r == ParseText(x) d == DecodeString(SLit) IN
+\* (bound variables force one evaluation of the text and of its parse; LET definitions are re-evaluated at each use)
+CaseOf(x, r, d) ==
   [t |-> x, ok |-> r.ok, why |-> r.why, at |-> r.i - 1, scope |-> FaultScope(x, r.why), v |-> r.v,
    cls |-> cx, lit |-> SLit, litok |-> d.ok, litb |-> d.b]
-Emit == CSVWrite("%1$s", <<ToJson(Case)>>, IOEnv.OUT)
+Case == CaseOf(Text, ParseText(Text), DecodeString(SLit))
+Emit == \A x \in {Text} : \A r \in {ParseText(x)} : \A d \in {DecodeString(SLit)} :
+  CSVWrite("%1$s", <<ToJson(CaseOf(x, r, d))>>, IOEnv.OUT)
 
 \* the text is accepted exactly when the literal decodes (the contexts add no other fault), and
 \* the outcome for a literal does not depend on where it sits
